@@ -17,6 +17,7 @@ cp "$keep" /verif/evidence/$prop.json 2>/dev/null; rm -f "$keep"
 for r in $(grep -oE "replay=/verif/replays/[A-Za-z0-9-]+\.json" "$log" | cut -d= -f2 | sort -u); do
   git -C /verif ls-files --error-unmatch "$r" >/dev/null 2>&1 || rm -f "$r"
 done
+git -C /verif checkout -q -- replays
 first=$(grep -m1 -E "^VIOLATION|^MACHINERY|MACHINERY-ERROR" "$log")
 oracle=$(grep -m1 -E "^  oracle=" "$log")
 echo "$prop $tier exit=$code | $oracle | $first | log=$log"
